@@ -48,7 +48,7 @@ def judgeCEA (d : DictRt) (impl : List String) : Judged :=
   | _ => { model := "undecodable", fails := [], tags := ["cea undecodable"] }
 
 /-- `smclient dial r=<R> cfg=<k> beh=<..> post=<..> wf=<k> [la=<a.b.c.d> prev=<n>] => out=.. cers=.. same=.. gap=.. closed=.. post=.. cer=..` -/
-def judgeDial (d : DictRt) (R cfgK wf : Nat) (behTok postTok : String) (la : List Nat) (impl : List String) : Judged :=
+def judgeDial (d : DictRt) (R cfgK wf : Nat) (behTok postTok : String) (la : List Nat) (impl : List String) (am : Nat := 0) : Judged :=
   let dfn := d.dictFn
   let beh := if behTok = "-" ∨ behTok = "" then [] else behTok.splitOn "."
   let post := if postTok = "-" ∨ postTok = "" then [] else postTok.splitOn "."
@@ -92,11 +92,26 @@ def judgeDial (d : DictRt) (R cfgK wf : Nat) (behTok postTok : String) (la : Lis
   -- the CER as the model builds it
   let cfg := settingsMenu cfgK
   let ips := if cfg.hostIPs.isEmpty then [la.map UInt8.ofNat] else cfg.hostIPs
-  let apps : ClientApps := {
-    supportedVendor := [newAVP C.supportedVendor 64 0 (.fix T.u32 10415)]
-    auth := [newAVP C.authApp 64 0 (.fix T.u32 4)]
-    acct := [newAVP C.acctApp 64 0 (.fix T.u32 3)]
-    vsa := [newAVP C.vsa 64 0 (.group [newAVP C.vendorId 64 0 (.fix T.u32 10415), newAVP C.authApp 64 0 (.fix T.u32 16777251)])] }
+  let u := fun (code v : Nat) => newAVP code 64 0 (.fix T.u32 v)
+  let grp := fun (ms : List AVP) => newAVP C.vsa 64 0 (.group ms)
+  let apps : ClientApps :=
+    if am = 1 then {
+      supportedVendor := [u C.supportedVendor 10415, u C.supportedVendor 13019]
+      auth := [u C.authApp 4, u C.authApp 1]
+      acct := [u C.acctApp 3]
+      vsa := [grp [u C.vendorId 10415, u C.authApp 16777251], grp [u C.vendorId 10415, u C.authApp 16777238],
+              grp [u C.vendorId 10415, u C.acctApp 16777251]] }
+    else if am = 2 then {
+      supportedVendor := []
+      auth := [u C.authApp 4]
+      acct := []
+      vsa := [grp [u C.authApp 16777251, u C.vendorId 10415], grp [u C.authApp 16777251, u C.vendorId 10415],
+              grp [u C.acctApp 3, u C.vendorId 13019]] }
+    else {
+      supportedVendor := [u C.supportedVendor 10415]
+      auth := [u C.authApp 4]
+      acct := [u C.acctApp 3]
+      vsa := [grp [u C.vendorId 10415, u C.authApp 16777251]] }
   let cerAVPs := makeCER cfg ips apps
   let implCer := (kv impl "cer").getD ""
   -- header of the CER is taken from the implementation (random identifiers); the AVPs are the model's
